@@ -264,6 +264,57 @@ def spelled_documents(key, pad, thorough=False):
                 yield "cipher", wrap(Map([{"key": Sc("fn::secret", ks), "val": inner}]), ctx)
 
 
+# ---- texts that start with a line break character ---------------------------------------------------------------
+# yaml.v3 cannot write a block scalar whose text starts with a line break (LF, U+2028, U+2029: the break is dropped) or
+# a tab; MarshalYAML writes such strings double-quoted.  The two Unicode breaks are three bytes long in UTF-8, so a
+# test of the first BYTE misses them.  Controls: U+0085 (NEL, read as LF by the scanner) and U+FEFF (no break).
+BREAK_PREFIXES = [("ls", "\u2028"), ("ps", "\u2029"), ("nel", "\u0085"), ("bom", "\ufeff"), ("lf", "\n"), ("tab", "\t")]
+BREAK_BODIES = ["first\nsecond\n", "x\ny", "\n"]
+
+
+def break_scalar_documents():
+    """NON-secret block scalars (literal, folded; chomping clip / strip / keep) whose text starts with the prefix and
+    contains a line feed, beside a secret.  A line made of U+2028 / U+2029 / U+0085 alone right after the header is how
+    such a text is spelled in a block scalar."""
+    tail = "  s: {fn::secret: q}\n"
+    for name, p in BREAK_PREFIXES:
+        for ind, chomp in (("|", ""), ("|", "-"), ("|", "+"), (">", ""), (">", "-")):
+            sep = "\n" if ind == "|" else "\n\n"
+            if name in ("ls", "ps", "nel"):
+                body = "%s    first%s    second\n" % (p, sep)
+                hdr = ind + chomp
+            elif name == "lf":
+                body = "\n    first%s    second\n" % sep
+                hdr = ind + "2" + chomp
+            else:
+                body = "    %sfirst%s    second\n" % (p, sep)
+                hdr = ind + ("2" if name == "tab" else "") + chomp
+            yield "values:\n  t: %s\n%s%s" % (hdr, body, tail)
+        # the same text double-quoted (stays quoted) and as a sequence item
+        yield "values:\n  t: %s\n%s" % (esc_dq(p + "first\nsecond\n", "all"), tail)
+        if name in ("ls", "ps", "nel"):
+            yield "values:\n  l:\n    - |\n%s      first\n      second\n%s" % (p, tail)
+
+
+def break_secret_documents(key, pad):
+    """(form, text): secrets whose plaintext starts with the prefix and contains a line feed, in block and in flow
+    position; 'plain' documents carry the plaintext (double-quoted with escapes, or as a literal block scalar),
+    'cipher' documents the envelope (decrypted into the plain-style slot of the ciphertext scalar)."""
+    for name, p in BREAK_PREFIXES:
+        for body in BREAK_BODIES:
+            t = p + body
+            q = esc_dq(t, "all")
+            env = envelope(toy_encrypt(t.encode("utf-8"), key, pad))
+            yield "plain", "values:\n  a:\n    fn::secret: %s\n  b: 1\n" % q
+            yield "plain", "values:\n  a: {fn::secret: %s}\n  b: [{fn::secret: %s}]\n" % (q, q)
+            yield "plain", "values:\n  p:\n    fn::open::test:\n      k:\n        fn::secret: %s\n" % q
+            yield "cipher", "values:\n  a:\n    fn::secret:\n      ciphertext: %s\n  b: 1\n" % env
+            yield "cipher", "values:\n  a:\n    fn::secret: {ciphertext: \"%s\"}\n  b: 1\n" % env
+            yield "cipher", "values:\n  a: {fn::secret: {ciphertext: %s}}\n  b: 1\n" % env
+        if name in ("ls", "ps", "nel"):
+            yield "plain", "values:\n  a:\n    fn::secret: |\n%s      first\n      second\n  b: 1\n" % p
+
+
 # ---- random documents -------------------------------------------------------------------------------------
 SECRET_TEXTS = ["", "a", "\x7f", "123", "null", "true", "~", " lead", "trail ", "  both  ", "$", "$$", "a$$b", "$$$",
                 "a$b", "${x}", "$${x}", "pre ${a.b} post", "line1\nline2\n", "x\ny", "\n", "tab\there",
